@@ -107,6 +107,7 @@ func genC04(t *simrt.Tape, tier string) interface{} {
 type delivery struct {
 	id    string
 	canon string
+	val   interface{} // the delivered value itself (its structural rendering is taken by the oracle, not in the handler)
 	step  int
 }
 
@@ -121,7 +122,7 @@ func (s *sink) add(kind int, v interface{}) {
 		s.dupe = map[string]int{}
 	}
 	s.dupe[fmt.Sprintf("%d|%s", kind, id)]++
-	s.byKind[kind] = append(s.byKind[kind], delivery{id, canon, simrt.Step()})
+	s.byKind[kind] = append(s.byKind[kind], delivery{id, canon, v, simrt.Step()})
 }
 
 func (s *sink) total() int {
@@ -210,7 +211,7 @@ func checkDelivery(w *World, dir, transport string, recs [][]sentRec, got *sink,
 				continue
 			}
 			seen[key] = true
-			if d.canon != e.Canon {
+			if d.canon != e.Canon || (e.Sem != "" && d.val != nil && semString(d.val) != e.Sem) {
 				w.Violate("C04.content-differs", sig(kindNames[kind]), "%s %q arrived with different content\n got: %s\nwant: %s", kindNames[kind], d.id, short(d.canon, 400), short(e.Canon, 400))
 			}
 		}
